@@ -1030,8 +1030,13 @@ def m_map(I, a, t, c):
 
 @model('std::iter::Iterator::sum', 'std::iter::Iterator::sum::<f64>')
 def m_sum(I, a, t, c):
+    items = [deref_all(I, x) for x in _iter_items(I, a[0])]
+    if items and all(isinstance(x, BV) for x in items):
+        return BV(items[0].w, sum(I.conc(x) for x in items), signed=items[0].signed)
+    if not items and 'usize' in (c.full or ''):
+        return BV(64, 0)
     s = 0.0
-    for x in _iter_items(I, a[0]):
+    for x in items:
         s = s + x
     return s
 
@@ -1121,6 +1126,11 @@ def m_vec_deref(I, a, t, c):
 def m_vec_index(I, a, t, c):
     r = a[0]
     v = I.load(r)
+    if isinstance(a[1], Agg) and a[1].kind == 'adt:std::ops::Range':
+        lo, hi = I.conc(a[1].fields[0]), I.conc(a[1].fields[1])
+        if lo > hi or hi > len(v.fields):
+            raise Panic('SliceIndex', '%d..%d of %d' % (lo, hi, len(v.fields)), t.span)
+        return RefV(r.cell, r.path, (lo, hi - lo))
     i = I.conc(a[1], 'Vec index')
     if i >= len(v.fields):
         raise Panic('BoundsCheck', 'Vec index %d of %d' % (i, len(v.fields)), t.span)
@@ -1373,3 +1383,27 @@ def m_bs_disjoint(I, a, t, c):
 @model('bit_set::BitSet::contains')
 def m_bs_contains(I, a, t, c):
     return bv_bool(I.conc(a[1]) in _bs(I, a[0]))
+
+
+@model('core::slice::<impl [T]>::copy_from_slice')
+def m_copy_from_slice(I, a, t, c):
+    dc, dp, ds, dn = _slice(I, a[0])
+    sc, sp, ss, sn = _slice(I, a[1])
+    if dn != sn:
+        raise Panic('copy_from_slice', 'length mismatch %d vs %d' % (dn, sn), t.span)
+    vals = [I.load(RefV(sc, sp + (ss + i,))) for i in range(sn)]
+    for i, v in enumerate(vals):
+        I.store(RefV(dc, dp + (ds + i,)), v)
+    return UNIT
+
+
+@model('std::vec::Vec::as_slice', 'std::vec::Vec::as_mut_slice')
+def m_vec_as_slice(I, a, t, c):
+    return m_vec_deref(I, a, t, c)
+
+
+@model('<&std::vec::Vec<T, A> as std::iter::IntoIterator>::into_iter', '<&mut std::vec::Vec<T, A> as std::iter::IntoIterator>::into_iter')
+def m_vecref_into_iter(I, a, t, c):
+    r = a[0]
+    v = I.load(r)
+    return Agg('iter', 0, [[RefV(r.cell, r.path + (i,)) for i in range(len(v.fields))], 0])
